@@ -144,3 +144,5 @@ Definition gcase_order_sensitive (c : gcase) : bool := load_order_sensitive (gcf
 Definition mkEn (name : str) (k : ekind) (target : str) : entry :=
   {| e_name := name; e_kind := k; e_mode := 420%Z; e_content := match k with KReg => [120%N] | _ => [] end; e_target := target |}.
 Definition mkIm (layers : list (list entry)) : image := {| im_layers := layers; im_hist := map (fun _ => false) layers |}.
+(* with an explicit config history (EmptyLayer flags); a count mismatch takes initializeChainLayers' fallback *)
+Definition mkImH (layers : list (list entry)) (hist : list bool) : image := {| im_layers := layers; im_hist := hist |}.
